@@ -698,4 +698,33 @@ theorem disjoint_second_keeps_list_witness : ¬ Statement_disjoint_second_keeps_
   rw [h1, h2] at this
   simp at this
 
+/-! ### `c += c'` where `c'` is another Collection object reading `c`'s own cells -/
+
+/-- `c'` = a Collection opened on the k-th cell of `c`'s chain: the head itself (`g.collection(c.uri)`, `k = 0`),
+    a tail cell, or rdf:nil (`k = len`).  It reads `xs.drop k`; and because `__iadd__` reads its operand into a
+    list before it opens the chain (fix C19-F7: snapshot semantics), `c += c'` makes the list `xs ++ xs.drop k`
+    (`xs ++ xs` for a second handle on the same head) and leaves a well-formed chain — it does not chase the
+    cells it is adding. -/
+def Statement_extend_view_refines : Prop :=
+  ∀ (s : St) (h : Term) (xs : List Term) (k : Nat) (c : Term), WF s h → asList s.g h = .ok xs →
+    getContainer s.g (some h) k = some c →
+    iter s.g c = .ok (xs.drop k) ∧ (step h s (.extend (xs.drop k))).2 = .unit ∧
+      WF (step h s (.extend (xs.drop k))).1 h ∧
+      asList (step h s (.extend (xs.drop k))).1.g h = .ok (xs ++ xs.drop k)
+
+theorem extend_view_refines : Statement_extend_view_refines := by
+  intro s h xs k c wf ha hc
+  obtain ⟨h1, h2, h3⟩ := coll_refines_partial s h xs (.extend (xs.drop k)) wf ha rfl
+  obtain ⟨ps, inv⟩ := wf
+  have hxs := asList_of_inv inv ha
+  subst hxs
+  refine ⟨?_, ?_, h2, h3⟩
+  · simp only [iter, inv.items_view hc, List.map_drop]
+  · rcases h1 with h1 | ⟨h1, _⟩
+    · exact h1
+    · simp [specStep] at h1
+
+/-- on `[10, 11, 12]` (cells 100 → 1000 → 1001): a view on the second cell reads `[11, 12]` -/
+example : iter (run 100 exEmpty [.extend [10, 11, 12]]).1.g 1000 = .ok [11, 12] := rfl
+
 end RV.C19
